@@ -8,6 +8,8 @@ import (
 
 	sdkmath "cosmossdk.io/math"
 	abci "github.com/cometbft/cometbft/abci/types"
+	cryptoenc "github.com/cometbft/cometbft/crypto/encoding"
+	servertypes "github.com/cosmos/cosmos-sdk/server/types"
 	sdk "github.com/cosmos/cosmos-sdk/types"
 )
 
@@ -164,4 +166,45 @@ func (r *Replica) WritesOutsideCommit() (int, string) {
 		}
 	}
 	return n, where
+}
+
+// ImportReplica initialises a FRESH application (new disk) from an exported
+// genesis and commits it, as a chain restarted from the export would.
+func (w *World) ImportReplica(ex servertypes.ExportedApp, commit bool) (r *Replica, err error) {
+	r = &Replica{ID: 200 + w.Stats.Forks, DB: NewSimDB()}
+	w.Stats.Forks++
+	r.DB.Phase = "init"
+	r.App = w.newApp(r)
+	var vals []abci.ValidatorUpdate
+	for _, v := range ex.Validators {
+		pk, e := cryptoenc.PubKeyToProto(v.PubKey)
+		if e != nil {
+			return nil, e
+		}
+		vals = append(vals, abci.ValidatorUpdate{PubKey: pk, Power: v.Power})
+	}
+	req := abci.RequestInitChain{
+		ChainId: w.Cfg.ChainID, Time: w.lastBlockTime(), Validators: vals, ConsensusParams: ex.ConsensusParams,
+		AppStateBytes: ex.AppState, InitialHeight: ex.Height,
+	}
+	if e := w.safely(r, "init", func() { r.App.InitChain(req) }); e != nil {
+		return nil, e
+	}
+	if !commit {
+		return r, nil // positioned like a chain restarted from the export: next call is BeginBlock(InitialHeight)
+	}
+	if e := w.safely(r, "commit", func() { r.App.Commit() }); e != nil {
+		return nil, e
+	}
+	return r, nil
+}
+
+func (w *World) lastBlockTime() time.Time { return w.PrevTime }
+
+// BuildCosmosTxOn builds a tx against the state of another application (a fork).
+func (w *World) BuildCosmosTxOn(r *Replica, a *Account, o TxOpts, msgs ...sdk.Msg) ([]byte, error) {
+	old := w.Reps[0]
+	w.Reps[0] = r
+	defer func() { w.Reps[0] = old }()
+	return w.BuildCosmosTx(a, o, msgs...)
 }
